@@ -7,10 +7,9 @@ def L(k):
     return Variable(GE.ALPHA[k])
 
 
-def to_y0_letters(g):
-    from y0.graph import NxMixedGraph
-    return NxMixedGraph.from_edges(nodes=[L(i) for i in g["nodes"]], directed=[(L(a), L(b)) for a, b in g["dir"]],
-                                   undirected=[(L(a), L(b)) for a, b in g["bid"]])
+def to_y0_letters(g, warm=None):
+    import gen_graph as GG
+    return GG.build_y0(g, L, warm)
 
 
 def rand_event(rng, nodes, kmin=1, kmax=3, reuse_worlds=True):
@@ -135,3 +134,32 @@ def three_world_case(rng):
         if key not in keys:
             keys.add(key); out.append(item)
     return g, out
+
+
+def prefix_name_case(rng):
+    """Z -> A <- Z10 (names one of which is a prefix of the other; 23 = "Z", 24 = "Z10"): the node intervened on both parents and
+    observed, with the parents observed at the intervened values - copies must be merged, and contradictory values make the event impossible."""
+    z, z10, a = 23, 24, 0
+    extra = [1] if rng.random() < 0.4 else []
+    di = [[z, a], [z10, a]] + ([[a, 1]] if extra else [])
+    bi = [[z, z10]] if rng.random() < 0.2 else []
+    g = {"nodes": [a, z, z10] + extra, "dir": di, "bid": bi}
+    sz, sz10, sa = rng.random() < 0.3, rng.random() < 0.3, rng.random() < 0.5
+    ev = [[{"k": "C", "n": GE.ALPHA[a], "s": None, "i": sorted([[GE.ALPHA[z], sz], [GE.ALPHA[z10], sz10]])}, [GE.ALPHA[a], sa]],
+          [{"k": "V", "n": GE.ALPHA[a], "s": None}, [GE.ALPHA[a], (not sa) if rng.random() < 0.6 else sa]],
+          [{"k": "V", "n": GE.ALPHA[z], "s": None}, [GE.ALPHA[z], sz]],
+          [{"k": "V", "n": GE.ALPHA[z10], "s": None}, [GE.ALPHA[z10], sz10 if rng.random() < 0.8 else not sz10]]]
+    return g, ev
+
+
+def mediator_case(rng):
+    """X -> Z -> Y (optionally X <-> Y): the outcome seen in two worlds of X with the mediator unobserved - Y_x and Y_x' are different
+    variables and may not be merged."""
+    x, z, y = 0, 1, 2
+    g = {"nodes": [x, z, y], "dir": [[x, z], [z, y]] + ([[x, y]] if rng.random() < 0.2 else []), "bid": [[x, y]] if rng.random() < 0.4 else []}
+    s1 = rng.random() < 0.5
+    ev = [[{"k": "C", "n": GE.ALPHA[y], "s": None, "i": [[GE.ALPHA[x], False]]}, [GE.ALPHA[y], s1]],
+          [{"k": "C", "n": GE.ALPHA[y], "s": None, "i": [[GE.ALPHA[x], True]]}, [GE.ALPHA[y], (not s1) if rng.random() < 0.5 else s1]]]
+    if rng.random() < 0.3:
+        ev.append([{"k": "V", "n": GE.ALPHA[x], "s": None}, [GE.ALPHA[x], rng.random() < 0.5]])
+    return g, ev
